@@ -91,7 +91,7 @@ class C01(Prop):
         return st.fixed_dictionaries({
             'code': T.adversarial_text(corpus_kinds=kinds),
             'version': T.version(),
-            'input': st.sampled_from(['str', 'str', 'bytes', 'bytes+bom']),
+            'input': st.sampled_from(['str', 'str', 'bytes', 'bytes+bom', 'bytes+latin-1', 'bytes+cp1252']),
         })
 
     def check(self, case):
@@ -99,7 +99,21 @@ class C01(Prop):
         g = grammar(v)
         expected = code
         try:
-            if kind != 'str' and not _CODING.search(first_two_lines(code)):
+            if kind in ('bytes+latin-1', 'bytes+cp1252') and not _CODING.search(first_two_lines(code)):
+                # a declared 8-bit codec: the tree must reproduce exactly what the library itself decodes
+                codec = kind.split('+')[1]
+                try:
+                    data = ('# -*- coding: %s -*-\n' % codec).encode('ascii') + code.encode(codec)
+                except UnicodeEncodeError:
+                    data = None
+                if data is not None:
+                    import parso
+                    expected = parso.python_bytes_to_unicode(data)
+                    m = g.parse(data)
+                else:
+                    m = g.parse(code)
+                    kind = 'str'
+            elif kind != 'str' and not _CODING.search(first_two_lines(code)):
                 try:
                     data = code.encode('utf-8')
                 except UnicodeEncodeError:
